@@ -23,7 +23,7 @@ ASSUMPTIONS = [
     "solo baselines come from python -m vlib.fresh (a new interpreter per case)",
     "a read-only input that makes the call raise is a violation (the statement says read-only arrays are accepted)",
 ]
-FAMS = ("qp", "rosenbrock", "styblinski_tang", "rastrigin", "qp_quartic", "beale", "flat")
+FAMS = ("qp", "rosenbrock", "styblinski_tang", "rastrigin", "qp_quartic", "beale", "flat", "qp_subnormal")
 IPRINTS = (-1, 0, 1, 7, 99, 100, 101, 1000)
 
 
